@@ -35,6 +35,20 @@ def handle (op : String) (j : Json) : Option (R Json) :=
       pure (Json.mkObj [("missing", ofList ofChars st.missing), ("extra", ofList ofChars st.extra),
                         ("wrong_types", ofList ofChars st.wrongTypes), ("wrong_ordering", Json.bool st.wrongOrdering),
                         ("same", Json.bool st.same)])
+  | "c05.check" => some do
+      let act ← parseCols (← fld j "act")
+      let ref ← parseCols (← fld j "ref")
+      let cd ← parseFlag (fldD j "check_data" Json.null)
+      let ct ← parseFlag (fldD j "check_types" Json.null)
+      let ce ← parseFlag (fldD j "check_extra_cols" Json.null)
+      let coSkip ← asBool (fldD j "check_order_false" (Json.bool false))
+      let co ← parseFlag (fldD j "check_order" Json.null)
+      let lv ← parseLevel (fldD j "level" Json.null)
+      let nact ← asNat (← fld j "nact")
+      let nref ← asNat (← fld j "nref")
+      let diff ← asList asChars (← fld j "diffcols")
+      pure (Json.bool (checkDataframe act ref nact nref cd ct ce (if coSkip then none else some co) lv
+        (fun cols => cols.all (fun c => !diff.contains c))))
   | _ => none
 
 end TddaVerif.Drv.C05
